@@ -237,6 +237,8 @@ def bench_loop(chk, prop, cfg, tier, rng, wd, finish=False):
         return all_exhausted
     if prop == "C14":
         clones_part(chk, thorough, wd)
+        import check_taskset
+        check_taskset.taskset_part(chk, thorough, wd)
     if prop == "C05":
         task_part(chk, rng, thorough, wd)
     if prop in POOL_INVARIANTS:
